@@ -109,6 +109,9 @@ type harness struct {
 	settling        bool // settle phase: the simulated user is idle
 	haltWatchSide   string
 	haltFirstScan   int // first scan of the struck side after the event: 1 showed the event, 2 predates it
+	haltEventSeq    int64
+	haltCycleSeen   bool // the first cycle evaluated after the event has been looked at
+	haltStraddled   bool // ... and one of its scans had started before the event
 	propagatedAfter bool
 	lastErrors      []string
 
@@ -582,6 +585,12 @@ func (h *harness) onScanReturn(side string, ancestor, content *core.Entry, prese
 
 // checkPlan decides C06 on the plan for the triple this cycle reached.
 func (h *harness) checkPlan(a, b *scanRecord) {
+	h.mu.Lock()
+	if h.haltWatch && !h.haltCycleSeen {
+		h.haltCycleSeen = true
+		h.haltStraddled = a.started < h.haltEventSeq || b.started < h.haltEventSeq
+	}
+	h.mu.Unlock()
 	alpha, beta := a.content, b.content
 	if h.plan.C("docker_ignores") > 0 {
 		// (as the controller does with Docker-style ignores, before anything else)
